@@ -1,0 +1,20 @@
+//! Verification hook (compiled only with `--cfg uec_verif`): a second state struct the
+//! `push_state` macro is applied to, with a different number, naming and typing of stacks than
+//! `PushState` and no input instructions. It lets the builder type-state and the generated
+//! `HasStack` accessors be observed on a struct other than `PushState`. Not part of the crate
+//! otherwise.
+use crate::push_vm::{program::PushProgram, stack::Stack};
+
+#[derive(Default, Debug, Clone, Eq, PartialEq)]
+#[push_macros::push_state(builder)]
+pub struct MiniState {
+    #[stack(exec)]
+    pub code: Stack<PushProgram>,
+    #[stack]
+    pub zeta: Stack<String>,
+    #[stack]
+    pub alpha: Stack<char>,
+    #[instruction_step_limit]
+    pub budget: usize,
+    pub unrelated: u8,
+}
